@@ -88,6 +88,11 @@ def run_profile(ctx, profile, n_t, n_p, maxcoef, modes=("shipped",), line_checke
                 xs = [E.dbl(z) for z in c.split()[1:]]
                 bad = E.lookup_oracle(table, xs, i)
                 if bad: ctx.report("lookup:" + bad, {"table": table, "x": xs, "impl": i}, "lookup oracle: " + bad)
+            elif k == "G":
+                st["values"] += 1
+                if i != m.strip():
+                    st["bit_mismatch"] += 1; ctx.tie_ok = False
+                    if len(ctx.broken) < 5: ctx.broken.append({"kind": "correspondence: gradient lanes bits != model", "case": c[:300], "impl": i, "model": m, "table": table})
             elif k in "VD":
                 line_checker(ctx, table, c, i, m, n, st)
                 if len(ctx.coverage["samples"]) < 4:
